@@ -195,12 +195,24 @@ func workerMain(shard, n int, only string) *wres {
 						if pan != nil {
 							ts.Panics++
 							key := fmt.Sprintf("C15.panic/%s/%s@%s", d.name, pan.class, pan.frame)
+							if passed {
+								key += "/behind-signature-check"
+							}
 							tmp.addViol(&vrec{Key: key, Predicate: "C15.no-panic", Dev: sh.dev, Idx: it.sh, Count: 1,
 								What:    fmt.Sprintf("%s panicked (%s) in %s on a %s request; signature check passed before: %v", d.name, pan.value, pan.frame, variant, passed),
 								Witness: witnessOf(d, state, sh, variant, map[string]any{"panic": pan.value, "frames": pan.frames, "signature_check_passed": passed})})
 							tmp.sample(d, state, sh, variant, "PANIC "+pan.class+" in "+pan.frame)
-							tmp.Rebuilds++
-							return
+							// A panic in front of the authentication guard (conversion of a request field, no lock held,
+							// nothing touched) leaves the world usable: keep it if the observable state is unchanged.
+							// (Should a lock have been left behind, the next call blocks, the chunk is re-run one call per
+							// fresh world and nothing is mis-attributed.)
+							vsched.Settle()
+							post := w.snap()
+							if passed || len(pre.diff(post)) > 0 || single {
+								tmp.Rebuilds++
+								return
+							}
+							continue
 						}
 						post := w.snap()
 						df := pre.diff(post)
